@@ -39,8 +39,14 @@ func UpdateMessageForChange(changedFile string) (string, string, string) {
 			oldLastChanged = strings.TrimPrefix(oldLastChanged, "/")
 		}
 
+		// the same when the new side is empty: `src/{main/java => }/readme.md` names src/readme.md
+		var newLastChanged = changed[4]
+		if changed[3] == "" {
+			newLastChanged = strings.TrimPrefix(newLastChanged, "/")
+		}
+
 		oldFileName = changed[1] + changed[2] + oldLastChanged
-		newFileName = changed[1] + changed[3] + changed[4]
+		newFileName = changed[1] + changed[3] + newLastChanged
 
 		changedFile = newFileName
 	}
